@@ -8,14 +8,24 @@ arbitrary bytes — prefix, zeros, stale), what the loader looks at is byte-for-
 before the save or what the completed save leaves. File contents and parsers are parameters, so
 "load img = load old ∨ load img = load new" follows for every loader that reads those names.
 
-Restated against DESIGN §6: instead of `load d' = ok old ∨ load d' = ok new` with a concrete
+Loader form (added): `save_index_crash_safe_loaded`, `residency_save_crash_safe_loaded`,
+`lru_checkpoint_crash_safe_codec` compose the byte-level theorems with C05's `load_save`, the
+residency model's `load ∘ save` and C17's `.lru` `codec_roundtrip` into DESIGN §6's
+`load d' = old ∨ load d' = new`.
+
+Restated against DESIGN §6 (the byte-level theorems below): instead of `load d' = ok old ∨ load d' = ok new` with a concrete
 parser per artifact, the theorems give equality of the loader-visible BYTES (index, residency,
 disk cache) resp. equality of the loader's RESULT for an arbitrary `deserialize` (LRU); that a
 completed save parses back to the saved state is C05/C07/C17's round trip.
 -/
 import Cascette.Proofs.SaveProtocols
+import Cascette.Model.SaveLoad
+import Cascette.Proofs.LsmDurable
+import Cascette.Proofs.Residency
+import Cascette.Proofs.LruPtr
 namespace Cascette.Props.C06
 open Cascette Cascette.Spec.Fs Cascette.Model.SaveProtocols Cascette.Proofs.SaveProtocols
+open Cascette.Model.SaveLoad
 
 set_option linter.unusedSectionVars false
 variable {N : Type} [DecidableEq N]
@@ -381,6 +391,341 @@ theorem journal_record_torn_write_safe_partial (version : Byte) (maxEntries : Na
       simp only [toLe32, List.take_succ_cons, List.take_nil, journalEntries, le32_enc seg h32, if_pos hseg]
       cases f <;> simp [journalEntries]
 
+
+/-! ## compaction journal: which crash states `load` accepts; the first record; crash-relation form -/
+
+/-- a well-formed backup file: version, max entries, whole records. -/
+def jrnFile (version : Byte) (maxEntries : Nat) (segs : List Nat) : Bytes :=
+  version :: (toLe32 (BitVec.ofNat 32 maxEntries) ++ encSegs segs)
+
+/-- what `load` makes of the bytes behind the last whole record: nothing unless there are four. -/
+def decodeTail : Bytes → List Nat
+  | [a, b, c, d] => if (le32 a b c d).toNat < 65536 then [(le32 a b c d).toNat] else []
+  | _ => []
+
+/-- `load` accepts a file exactly when it has the 5 header bytes and the version byte matches —
+whatever else it holds (no length, alignment or checksum test). -/
+theorem journal_load_accepts_iff (version : Byte) (b : Bytes) :
+    (journalParse version b).isSome = true ↔ 5 ≤ b.length ∧ b.head? = some version := by
+  match b with
+  | [] => simp [journalParse]
+  | [_] => simp [journalParse]
+  | [_, _] => simp [journalParse]
+  | [_, _, _] => simp [journalParse]
+  | [_, _, _, _] => simp [journalParse]
+  | v :: _ :: _ :: _ :: _ :: rest =>
+    simp only [journalParse, List.length_cons, List.head?_cons, Option.some.injEq]
+    by_cases h : v = version
+    · simp [h]
+    · simp [h]
+
+/-- what an accepted file loads as on top of a well-formed one: the old segments, plus whatever
+the bytes behind them decode to (any bytes: torn, zeros, stale). -/
+theorem journal_load_tail (version : Byte) (maxEntries : Nat) (hmax : maxEntries < 2 ^ 32)
+    (segs : List Nat) (hs : ∀ s ∈ segs, s < 65536) (hroom : segs.length < maxEntries)
+    (tail : Bytes) (ht : tail.length ≤ 4) :
+    journalLoad version (some (jrnFile version maxEntries segs ++ tail)) = segs ++ decodeTail tail := by
+  have hparse : journalLoad version (some (jrnFile version maxEntries segs ++ tail)) =
+      segs ++ journalEntries (maxEntries - segs.length) tail := by
+    simp only [jrnFile, journalLoad, toLe32, List.cons_append, List.nil_append, journalParse,
+      le32_enc maxEntries hmax]
+    exact journalEntries_enc segs maxEntries tail hs (Nat.le_of_lt hroom)
+  rw [hparse]
+  obtain ⟨f, hf⟩ : ∃ f, maxEntries - segs.length = f + 1 := ⟨maxEntries - segs.length - 1, by omega⟩
+  rw [hf]
+  match tail, ht with
+  | [], _ => simp [journalEntries, decodeTail]
+  | [_], _ => simp [journalEntries, decodeTail]
+  | [_, _], _ => simp [journalEntries, decodeTail]
+  | [_, _, _], _ => simp [journalEntries, decodeTail]
+  | [a, b, c, d], _ =>
+    simp only [journalEntries, decodeTail]
+    cases f <;> simp [journalEntries]
+  | _ :: _ :: _ :: _ :: _ :: _, h => simp at h
+
+theorem journalEntries_short (n : Nat) (l : Bytes) (h : l.length < 4) : journalEntries n l = [] := by
+  cases n with
+  | zero => rfl
+  | succ n =>
+    match l, h with
+    | [], _ => rfl
+    | [_], _ => rfl
+    | [_, _], _ => rfl
+    | [_, _, _], _ => rfl
+    | _ :: _ :: _ :: _ :: _, h => simp at h; omega
+
+/-- the very first record (header + entry, 9 bytes in three writes) cut anywhere. -/
+theorem journal_first_record_prefix (version : Byte) (maxEntries : Nat) (hmax : maxEntries < 2 ^ 32)
+    (hroom : 0 < maxEntries) (seg : Nat) (hseg : seg < 65536) (k : Nat) :
+    journalLoad version (some ((jrnFile version maxEntries [seg]).take k)) = [] ∨
+    journalLoad version (some ((jrnFile version maxEntries [seg]).take k)) = [seg] := by
+  have h32 : seg < 2 ^ 32 := by omega
+  obtain ⟨f, hf⟩ : ∃ f, maxEntries = f + 1 := ⟨maxEntries - 1, by omega⟩
+  match k with
+  | 0 => left; simp [jrnFile, journalLoad, journalParse]
+  | 1 => left; simp [jrnFile, toLe32, journalLoad, journalParse]
+  | 2 => left; simp [jrnFile, toLe32, journalLoad, journalParse]
+  | 3 => left; simp [jrnFile, toLe32, journalLoad, journalParse]
+  | 4 => left; simp [jrnFile, toLe32, journalLoad, journalParse]
+  | 5 => left; simp [jrnFile, toLe32, encSegs, journalLoad, journalParse, journalEntries_short]
+  | 6 => left; simp [jrnFile, toLe32, encSegs, journalLoad, journalParse, journalEntries_short]
+  | 7 => left; simp [jrnFile, toLe32, encSegs, journalLoad, journalParse, journalEntries_short]
+  | 8 => left; simp [jrnFile, toLe32, encSegs, journalLoad, journalParse, journalEntries_short]
+  | k + 9 =>
+    right
+    simp only [jrnFile, toLe32, encSegs, List.cons_append, List.nil_append, List.take_succ_cons, List.take_nil,
+      journalLoad, journalParse, if_true, le32_enc maxEntries hmax]
+    rw [hf]
+    simp only [journalEntries, le32_enc seg h32, if_pos hseg]
+    cases f <;> simp [journalEntries]
+
+
+/-- the state of the backup file before `record_segment`: absent or empty (then nothing is
+recorded) or a well-formed file holding `segs`. -/
+def JournalOld (d0 : Dir N) (name : N) (version : Byte) (maxEntries : Nat) (segs : List Nat) : Prop :=
+  (d0 name = none ∧ segs = []) ∨ (∃ sy, d0 name = some ⟨[], sy⟩ ∧ segs = []) ∨
+  (∃ sy, d0 name = some ⟨jrnFile version maxEntries segs, sy⟩)
+
+theorem journalRecord_writes (name : N) (e : Bool) (version : Byte) (maxEntries seg : Nat) :
+    journalRecord name e version maxEntries seg = Op.openAppend name ::
+      ((if e then [[version], toLe32 (BitVec.ofNat 32 maxEntries)] else []) ++ [toLe32 (BitVec.ofNat 32 seg)]).map (Op.write name) := by
+  cases e <;> simp [journalRecord, journalHeader]
+
+/-- PARTIAL, crash-relation form, covering the FIRST record on an absent or empty file (header +
+entry in three writes) as well as an append to a well-formed file: at EVERY cut of
+`record_segment` (between the calls, inside the version byte, the max-entries word or the entry),
+when everything written before the cut is on disk as written (torn only — no zeros, no stale
+bytes; those are `journal_unsynced_counter`), `load` returns the old list or the old list plus
+the new segment. (What goes wrong after a torn first record is the NEXT `record_segment`:
+`journal_torn_header_counter`, `journal_torn_entry_counter`.) -/
+theorem journal_record_torn_crash_safe_partial (name : N) (version : Byte) (maxEntries : Nat)
+    (hmax : maxEntries < 2 ^ 32) (segs : List Nat) (seg : Nat) (hs : ∀ s ∈ segs, s < 65536)
+    (hseg : seg < 65536) (hroom : segs.length < maxEntries) (d0 : Dir N)
+    (hold : JournalOld d0 name version maxEntries segs) {p : List (Op N)}
+    (hcut : Cut (journalRecord name (journalIsEmpty d0 name) version maxEntries seg) p) :
+    journalLoad version (dataOf d0 name) = segs ∧
+    (journalLoad version (dirImage .asis (run d0 p) name) = segs ∨
+     journalLoad version (dirImage .asis (run d0 p) name) = segs ++ [seg]) := by
+  have hold0 : journalLoad version (dataOf d0 name) = segs := by
+    rcases hold with ⟨h, rfl⟩ | ⟨sy, h, rfl⟩ | ⟨sy, h⟩
+    · simp [dataOf, h, journalLoad]
+    · simp [dataOf, h, journalLoad, journalParse]
+    · simp only [dataOf, h, Option.map_some]
+      have := journal_load_tail version maxEntries hmax segs hs hroom [] (by simp)
+      simpa [decodeTail] using this
+  refine ⟨hold0, ?_⟩
+  have hdi : ∀ d : Dir N, dirImage .asis d name = dataOf d name := by
+    intro d; unfold dirImage dataOf; cases d name <;> rfl
+  rw [hdi]
+  rw [journalRecord_writes] at hcut
+  cases hcut with
+  | stop _ => left; rw [run_nil]; exact hold0
+  | next _ hc' =>
+    obtain ⟨k, hk⟩ := writes_cut name _ hc'
+    rw [run_cons]
+    unfold dataOf
+    rcases hold with ⟨h, rfl⟩ | ⟨sy, h, rfl⟩ | ⟨sy, h⟩
+    · have he : journalIsEmpty d0 name = true := by simp [journalIsEmpty, h]
+      have h1 : step d0 (.openAppend name) name = some ⟨[], 0⟩ := by simp [step, h]
+      rw [hk _ _ h1]
+      simp only [Option.map_some, he, if_true, List.nil_append]
+      have := journal_first_record_prefix version maxEntries hmax hroom seg hseg k
+      simpa [jrnFile, encSegs] using this
+    · have he : journalIsEmpty d0 name = true := by simp [journalIsEmpty, h]
+      have h1 : step d0 (.openAppend name) name = some ⟨[], sy⟩ := by simp [step, h]
+      rw [hk _ _ h1]
+      simp only [Option.map_some, he, if_true, List.nil_append]
+      have := journal_first_record_prefix version maxEntries hmax hroom seg hseg k
+      simpa [jrnFile, encSegs] using this
+    · have he : journalIsEmpty d0 name = false := by simp [journalIsEmpty, h, jrnFile]
+      have h1 : step d0 (.openAppend name) name = some ⟨jrnFile version maxEntries segs, sy⟩ := by simp [step, h]
+      rw [hk _ _ h1]
+      simp only [Option.map_some, he, Bool.false_eq_true, if_false, List.nil_append,
+        List.flatten_cons, List.flatten_nil, List.append_nil]
+      exact (journal_record_torn_write_safe_partial version maxEntries hmax segs seg hs hseg hroom k).2
+
+/-- EXACTLY which crash states of an append `load` accepts, and as what. Old file well formed and
+durable; `img` ANY state the crash relation allows (torn, zeros, stale). Then the file is the old
+content plus at most four arbitrary bytes, `load` ignores fewer than four, and reads four as a
+segment index when the value fits `u16` — whether or not it is the recorded one. So the state is
+"old or new" exactly when those four bytes decode to nothing or to `seg`. -/
+theorem journal_record_crash_states_exact (name : N) (version : Byte) (maxEntries : Nat)
+    (hmax : maxEntries < 2 ^ 32) (segs : List Nat) (seg : Nat) (hs : ∀ s ∈ segs, s < 65536)
+    (hroom : segs.length < maxEntries) (d0 : Dir N)
+    (h0 : d0 name = some ⟨jrnFile version maxEntries segs, (jrnFile version maxEntries segs).length⟩)
+    {img : N → Option Bytes}
+    (hc : Crash (journalRecord name (journalIsEmpty d0 name) version maxEntries seg) d0 img) :
+    ∃ tail : Bytes, tail.length ≤ 4 ∧ img name = some (jrnFile version maxEntries segs ++ tail) ∧
+      journalLoad version (img name) = segs ++ decodeTail tail ∧
+      ((journalLoad version (img name) = segs ∨ journalLoad version (img name) = segs ++ [seg]) ↔
+        (decodeTail tail = [] ∨ decodeTail tail = [seg])) := by
+  obtain ⟨p, hcut, hi⟩ := hc
+  have he : journalIsEmpty d0 name = false := by simp [journalIsEmpty, h0, jrnFile]
+  rw [he, journalRecord_writes] at hcut
+  -- the volatile state at the cut: old content plus a prefix of the entry, nothing more synced
+  have hst : ∃ k, run d0 p name = some ⟨jrnFile version maxEntries segs ++ (toLe32 (BitVec.ofNat 32 seg)).take k,
+      (jrnFile version maxEntries segs).length⟩ := by
+    cases hcut with
+    | stop _ => exact ⟨0, by simp [run_nil, h0]⟩
+    | next _ hc' =>
+      obtain ⟨k, hk⟩ := writes_cut name _ hc'
+      have h1 : step d0 (.openAppend name) name = some ⟨jrnFile version maxEntries segs, (jrnFile version maxEntries segs).length⟩ := by
+        simp [step, h0]
+      exact ⟨k, by rw [run_cons, hk _ _ h1]; simp⟩
+  obtain ⟨k, hk⟩ := hst
+  have := hi name
+  rw [hk] at this
+  obtain ⟨b, hb, hlen, htake⟩ := this
+  simp only at hlen htake
+  rw [List.take_append_of_le_length (Nat.le_refl _), List.take_length] at htake
+  have hsplit : b = jrnFile version maxEntries segs ++ b.drop (jrnFile version maxEntries segs).length := by
+    have := (List.take_append_drop (jrnFile version maxEntries segs).length b).symm
+    rw [htake] at this; exact this
+  have htl : (b.drop (jrnFile version maxEntries segs).length).length ≤ 4 := by
+    have : ((toLe32 (BitVec.ofNat 32 seg)).take k).length ≤ 4 := by simp [toLe32]; omega
+    simp only [List.length_append] at hlen
+    simp only [List.length_drop]; omega
+  have hb' : img name = some (jrnFile version maxEntries segs ++ b.drop (jrnFile version maxEntries segs).length) := by
+    rw [hb]; exact congrArg some hsplit
+  refine ⟨b.drop (jrnFile version maxEntries segs).length, htl, hb', ?_⟩
+  · 
+    have hl := journal_load_tail version maxEntries hmax segs hs hroom _ htl
+    rw [hb', hl]
+    refine ⟨rfl, ?_⟩
+    constructor
+    · rintro (h | h)
+      · left; simpa using h
+      · right; simpa using h
+    · rintro (h | h)
+      · left; simp [h]
+      · right; simp [h]
+
+
+/-- the hypotheses are met by non-trivial instances: no file yet / the well-formed durable
+journal of `journal_unsynced_counter` (version 1, max 1023, segments [905]). -/
+example : JournalOld (fun _ : Nat => none) 0 1 1023 [] := Or.inl ⟨rfl, rfl⟩
+example : jrnDir 0 = some ⟨jrnFile 1 1023 [905], (jrnFile 1 1023 [905]).length⟩ := by decide
+example : JournalOld jrnDir 0 1 1023 [905] := Or.inr (Or.inr ⟨9, by decide⟩)
+
+def jrnNoDir : Dir Nat := fun _ => none
+def jrnZeroHeaderImg : Nat → Option Bytes := fun n => if n = 0 then some [0, 0, 0, 0, 0, 0, 0, 0, 0] else none
+
+/-- FOURTH counter-witness (finding `journal-header-not-synced`): the first `record_segment(7)` on
+a fresh directory writes header + entry, nothing is synced, the crash leaves the nine bytes as
+zeros (allowed by the crash relation). At that instant `load` gives [] = the old state — but the
+header is never written again (the file is not empty) and never validated: the NEXT
+`record_segment(9)` completes, is even durable, returns Ok, and `load` still ignores the file
+(version byte 0): every later recorded segment is lost. (corpus/C06/journal-header-not-synced.case) -/
+theorem journal_unsynced_header_counter :
+    Crash (journalRecord (0 : Nat) (journalIsEmpty jrnNoDir 0) 1 1023 7) jrnNoDir jrnZeroHeaderImg ∧
+    journalLoad 1 (jrnZeroHeaderImg 0) = [] ∧
+    journalRecord (0 : Nat) (journalIsEmpty (ofData jrnZeroHeaderImg) 0) 1 1023 9 = [.openAppend 0, .write 0 [9, 0, 0, 0]] ∧
+    journalLoad 1 (dataOf (run (ofData jrnZeroHeaderImg)
+      (journalRecord 0 (journalIsEmpty (ofData jrnZeroHeaderImg) 0) 1 1023 9)) 0) = [] := by
+  refine ⟨⟨_, cut_full _, ?_⟩, by decide, by decide, by decide⟩
+  intro n
+  by_cases hn : n = 0
+  · subst hn
+    have : run jrnNoDir (journalRecord (0 : Nat) (journalIsEmpty jrnNoDir 0) 1 1023 7) 0 =
+        some ⟨[1, 0xff, 3, 0, 0, 7, 0, 0, 0], 0⟩ := by decide
+    rw [this]
+    exact ⟨_, rfl, by decide, by decide⟩
+  · have hfr : run jrnNoDir (journalRecord (0 : Nat) (journalIsEmpty jrnNoDir 0) 1 1023 7) n = jrnNoDir n := by
+      apply run_frame
+      intro o ho
+      have : journalRecord (0 : Nat) (journalIsEmpty jrnNoDir 0) 1 1023 7 =
+          [.openAppend 0, .write 0 [1], .write 0 [0xff, 3, 0, 0], .write 0 [7, 0, 0, 0]] := by decide
+      rw [this] at ho
+      simp only [List.mem_cons, List.not_mem_nil, or_false] at ho
+      rcases ho with rfl | rfl | rfl | rfl <;> simpa [touches] using hn
+    rw [hfr]
+    simp [jrnNoDir, jrnZeroHeaderImg, hn]
+
+/-! ## the positive theorems in loader form: `load d' = old ∨ load d' = new` with the real parsers -/
+
+/-- **save_index_crash_safe, loader form** (DESIGN §6: `load d' = ok old ∨ load d' = ok new`).
+Bucket `bk` (sorted by distinct keys, inside the field limits — C05's `save_load_id` hypotheses) is
+saved with every outcome of the three attempts; at EVERY crash point `load_all` makes of the
+bucket's file exactly what it made of it before the save, or loads exactly `bk`. The byte layout
+`enc`/`dec` of the `.idx` file is a parameter with the round-trip law. -/
+theorem save_index_crash_safe_loaded (enc : Model.Lsm.Image → Bytes) (dec : Bytes → Option Model.Lsm.Image)
+    (hcodec : ∀ i, dec (enc i) = some i) (bk : Model.Lsm.Bucket)
+    (hs : Proofs.Lsm.Sorted bk.sorted) (hw : Proofs.Lsm.WFB bk)
+    (d0 : Dir N) {tmp fin : N} (outcomes : List Attempt) (hne : tmp ≠ fin) (hd : Durable d0 fin)
+    {img : N → Option Bytes}
+    (hc : Crash (saveIndex tmp fin (enc (Model.Lsm.saveB bk)) outcomes) d0 img) :
+    idxLoadBucket dec (img fin) = idxLoadBucket dec (dataOf d0 fin) ∨
+    idxLoadBucket dec (img fin) = .loaded bk := by
+  rcases (save_index_crash_safe d0 _ outcomes hne hc).1 hd with h | h
+  · left; rw [h]
+  · right; rw [h]; simp only [idxLoadBucket, hcodec, Proofs.Lsm.load_save bk hs hw]
+
+/-- **residency_save_crash_safe, loader form.** At every crash point of `ResidencyDb::save`,
+`ResidencyDb::load` returns what it returned before the save or exactly `load (save s)` — the
+state C05's `residency_refines_map` is about. Byte layout of the file: parameter with the
+round-trip law. -/
+theorem residency_save_crash_safe_loaded (enc : (Nat → Model.Residency.Pages) → Bytes)
+    (dec : Bytes → Option (Nat → Model.Residency.Pages)) (hcodec : ∀ b, dec (enc b) = some b)
+    (s : Model.Residency.State) (d0 : Dir N) {tmp fin : N} (hne : tmp ≠ fin) (hd : Durable d0 fin)
+    {img : N → Option Bytes} (hc : Crash (residencySave s.dirty tmp fin (enc s.buckets)) d0 img) :
+    resLoad dec (img fin) = resLoad dec (dataOf d0 fin) ∨
+    (s.dirty = true ∧ resLoad dec (img fin) = some (Model.Residency.load (Model.Residency.save s))) := by
+  rcases residency_save_crash_safe d0 s.dirty _ hne hd hc with h | h
+  · left; rw [h]
+  · cases hdirty : s.dirty with
+    | false =>
+      left
+      rw [hdirty] at hc
+      obtain ⟨p, hcut, hi⟩ := hc
+      have hp : p = [] := cut_nil (by simpa [residencySave] using hcut)
+      subst hp
+      rw [image_eq_of_state_eq hi rfl hd]; rfl
+    | true =>
+      right
+      refine ⟨rfl, ?_⟩
+      rw [h]
+      simp [resLoad, hcodec, Model.Residency.load, Model.Residency.save, hdirty]
+
+/-- **lru_checkpoint_crash_safe with the real `.lru` codec** (`lru_file::serialize` /
+`deserialize`, MD5 any 16-byte function). The manager's header `h` and entry array `es` (fields
+inside their on-disk widths) are checkpointed as generation `gen` with no higher generation on
+disk; at EVERY crash point a fresh manager's `run_cycle` load step returns what it returned before
+the checkpoint, or loads generation `gen` with exactly `h` (hash field filled in) and `es`. -/
+theorem lru_checkpoint_crash_safe_codec (genName tmpName : Nat → N) (md5 : Bytes → Bytes)
+    (hmd5 : ∀ x, (md5 x).length = 16)
+    (hinj : ∀ a b, genName a = genName b → a = b) (hdis : ∀ a b, tmpName a ≠ genName b)
+    (gens : List Nat) (gen prev : Nat) (h : Model.LruPtr.Header) (es : List Model.LruPtr.Entry)
+    (hv : h.version ≤ 1) (hh : h.head < 2 ^ 32) (ht : h.tail < 2 ^ 32)
+    (hes : ∀ e ∈ es, Proofs.LruPtr.Entry.Fits e) (d0 : Dir N)
+    (hgen : gen ∈ gens) (hdur : ∀ g ∈ gens, Durable d0 (genName g))
+    (hmax : ∀ g ∈ gens, (d0 (genName g)).isSome → g ≤ gen) {img : N → Option Bytes}
+    (hc : Crash (lruCheckpoint genName tmpName gen prev (Model.LruPtr.serialize md5 h es)) d0 img) :
+    lruLoadFile genName md5 gens img = lruLoadFile genName md5 gens (dataOf d0) ∨
+    lruLoadFile genName md5 gens img =
+      .loaded gen ({ h with hash := md5 (Model.LruPtr.headerBytes h Model.LruPtr.zeros16 ++ Model.LruPtr.bodyBytes es) }, es) := by
+  unfold lruLoadFile
+  rcases lru_checkpoint_crash_safe genName tmpName (Model.LruPtr.deserialize md5) hinj hdis gens gen prev _ d0 hgen hdur hc with h1 | h1
+  · exact Or.inl h1
+  · right
+    rw [h1, lru_checkpoint_complete genName tmpName _ hinj hdis gens gen prev _ d0 hgen hmax,
+      Proofs.LruPtr.codec_roundtrip md5 hmd5 h es hv hh ht hes]
+
+
+/-- hypotheses of the loader-form theorems are satisfiable: a two-entry sorted bucket inside the
+field limits; a one-entry LRU table whose fields fit. -/
+example : Proofs.Lsm.Sorted (⟨[⟨1, 2, 3, 4⟩, ⟨5, 1023, 2 ^ 30 - 1, 7⟩], []⟩ : Model.Lsm.Bucket).sorted ∧
+    Proofs.Lsm.WFB ⟨[⟨1, 2, 3, 4⟩, ⟨5, 1023, 2 ^ 30 - 1, 7⟩], []⟩ := by
+  refine ⟨by simp [Proofs.Lsm.Sorted], ⟨?_, ?_⟩⟩
+  · intro e he
+    simp only [List.mem_cons, List.not_mem_nil, or_false] at he
+    rcases he with rfl | rfl <;> simp [Proofs.Lsm.wfE]
+  · intro u hu; simp [Model.Lsm.Bucket.log] at hu
+example : ∀ e ∈ ([⟨0xFFFFFFFF, 0xFFFFFFFF, List.replicate 9 7, 0⟩] : List Model.LruPtr.Entry),
+    Proofs.LruPtr.Entry.Fits e := by
+  intro e he
+  simp only [List.mem_cons, List.not_mem_nil, or_false] at he
+  subst he
+  simp [Proofs.LruPtr.Entry.Fits]
 
 /-! ## the driver's / harness's enumeration stays inside the crash relation -/
 
